@@ -11,11 +11,14 @@
     primitive_equations.py: dry, moist, cloud classes) assembled with the concrete
     transforms / spectral operators (theorems C10_primeq_...).  Not proved here
     (explored on the implementation by the plugin's oracles): the same composition
-    for rotations beyond the nodal stage (it needs only linearity and the rotation
-    lemmas above, no sign bookkeeping), shallow_water.py, held_suarez.py, and the
-    implicit terms / inverse (functions of l and level only). *)
+    and likewise for the rotation by k grid steps (orography rotated too), and for the
+    implicit terms / implicit inverse (column operators depending on l only).  Not
+    proved here (explored on the implementation by the plugin's oracles): the explicit
+    terms of shallow_water.py and held_suarez.py (no Coq model of them exists), and the
+    composition tendencies -> integrator step for the concrete operators (the step
+    theorems are over abstract equivariant F, G, G_inv). *)
 From Dino Require Import Base.Ops Base.Sums Base.Inst Gen.DerivExprs Model.SHT Model.Deriv Model.Invariants Model.Sigma Model.Implicit
-     Model.PrimEq Model.Symmetry Thm.Deriv Thm.Symmetry.
+     Model.PrimEq Model.Symmetry Thm.Deriv Thm.Implicit Thm.Symmetry.
 From Coq Require Import Qcanon.
 Local Open Scope F_scope.
 
@@ -341,6 +344,128 @@ Section C10_primeq.
         = mir_modal fast true (un (humidity_curl_modal Wc Wc toM c m X gqx gqy r)) a l.
     Proof. intros; eapply primeq_humidity_mirror_concrete; eassumption. Qed.
   End Concrete.
+
+  (** (d) the same for the rotation by k longitude grid steps (tables [rc], [rs] of the rotation angle), both layouts *)
+  Section ConcreteRot.
+    Variables (fast : bool) (R L I J : nat) (f : nat -> nat -> F) (p : nat -> nat -> nat -> F) (wq : nat -> F)
+              (rad : F) (wa wb : @marr F) (grav : F) (k : nat) (rc rs : nat -> F).
+    Hypothesis HR : layout_ok fast R.
+    Hypothesis Hrot : H_rot_table fast R I f k rc rs.
+    Hypothesis Hpp : H_p_pairs fast R L J p.
+    Hypothesis Hun : H_rot_unit rc rs.
+    Hypothesis Hwa : sym_rows fast R wa.
+    Hypothesis Hwb : sym_rows fast R wb.
+    Let toM := toMc R I J f p wq.
+    Let divc := divcc fast R L rad wa wb.
+    Let curlc := curlcc fast R L rad wa wb.
+    Let lap := lapc L rad.
+    Let clp := clipc L.
+    Let piN := piNr I k.
+    Let Rm := Rmc fast rc rs.
+
+    Theorem C10_get_cos_lat_vector_rot cl (vort dive : marr) i l :
+      (i < R)%nat -> (l < L)%nat ->
+      fst (get_cos_lat_vector fast L R L rad wa wb cl (rot_modal fast rc rs vort) (rot_modal fast rc rs dive)) i l
+        = rot_modal fast rc rs (fst (get_cos_lat_vector fast L R L rad wa wb cl vort dive)) i l /\
+      snd (get_cos_lat_vector fast L R L rad wa wb cl (rot_modal fast rc rs vort) (rot_modal fast rc rs dive)) i l
+        = rot_modal fast rc rs (snd (get_cos_lat_vector fast L R L rad wa wb cl vort dive)) i l.
+    Proof. intros; eapply get_cos_lat_vector_rot; eassumption. Qed.
+
+    (** the nodal columns synthesised from the rotated modal fields are (entrywise) the family shifted by k nodes *)
+    Theorem C10_primeq_columns_of_rotated_state (um vm zeta delta temp : nat -> marr) (gxm gym : marr) (sec2 cor : nat -> F) :
+      cols_eqv Wc (inPc I J) c
+        (cols_of_modal R L J f p (fun n => rot_modal fast rc rs (um n)) (fun n => rot_modal fast rc rs (vm n))
+                       (fun n => rot_modal fast rc rs (zeta n)) (fun n => rot_modal fast rc rs (delta n))
+                       (fun n => rot_modal fast rc rs (temp n)) (rot_modal fast rc rs gxm) (rot_modal fast rc rs gym) sec2 cor)
+        (rotX Wc piN (cols_of_modal R L J f p um vm zeta delta temp gxm gym sec2 cor)).
+    Proof. intros; eapply primeq_columns_of_rotated_state; eassumption. Qed.
+
+    (** explicit tendencies of the shifted family of columns = rotated tendencies (orography and humidity
+        corrections rotated too): temperature (dry / moist), tracers, lnps, divergence, vorticity *)
+    Theorem C10_primeq_tendency_rot_equivariant (m : Moist) (X : Wc -> NCol) (rt q s : Wc -> nat -> F)
+            (orog hum humz : Wc -> F) r a l :
+      (a < R)%nat -> (l < L)%nat ->
+      temp_tendency_explicit Wc Wc toM divc clp c (rotX Wc piN X) r (a, l)
+        = rot_modal fast rc rs (un (temp_tendency_explicit Wc Wc toM divc clp c X r)) a l /\
+      temp_tendency_explicit_moist Wc Wc toM divc clp c m (rotX Wc piN X) (fun n => q (piN n)) r (a, l)
+        = rot_modal fast rc rs (un (temp_tendency_explicit_moist Wc Wc toM divc clp c m X q r)) a l /\
+      tracer_tendency_explicit Wc Wc toM divc clp c (rotX Wc piN X) (fun n => s (piN n)) r (a, l)
+        = rot_modal fast rc rs (un (tracer_tendency_explicit Wc Wc toM divc clp c X s r)) a l /\
+      toM (fun n => log_pressure_tendency c (rotX Wc piN X n)) (a, l)
+        = rot_modal fast rc rs (un (toM (fun n => log_pressure_tendency c (X n)))) a l /\
+      div_tendency_explicit Wc Wc toM divc lap clp c grav (rotX Wc piN X) (fun n => rt (piN n)) (Rm orog) (Rm hum) r (a, l)
+        = rot_modal fast rc rs (un (div_tendency_explicit Wc Wc toM divc lap clp c grav X rt orog hum r)) a l /\
+      vort_tendency_explicit Wc Wc toM curlc clp c (rotX Wc piN X) (fun n => rt (piN n)) (Rm humz) r (a, l)
+        = rot_modal fast rc rs (un (vort_tendency_explicit Wc Wc toM curlc clp c X rt humz r)) a l.
+    Proof. intros; eapply primeq_tendency_rot_equivariant; eassumption. Qed.
+
+    (** ... and so are the tendencies computed from the columns of the rotated MODAL state *)
+    Theorem C10_primeq_rotated_state_tendency (m : Moist) (um vm zeta delta temp : nat -> marr) (gxm gym : marr)
+            (sec2 cor : nat -> F) (rt rt' q q' s s' : Wc -> nat -> F) (orog hum humz : Wc -> F) r a l :
+      let X := cols_of_modal R L J f p um vm zeta delta temp gxm gym sec2 cor in
+      let X' := cols_of_modal R L J f p (fun n => rot_modal fast rc rs (um n)) (fun n => rot_modal fast rc rs (vm n))
+                              (fun n => rot_modal fast rc rs (zeta n)) (fun n => rot_modal fast rc rs (delta n))
+                              (fun n => rot_modal fast rc rs (temp n)) (rot_modal fast rc rs gxm) (rot_modal fast rc rs gym) sec2 cor in
+      (forall n, inPc I J n -> rt' n r = rt (piN n) r) -> (forall n, inPc I J n -> q' n r = q (piN n) r) ->
+      (forall n, inPc I J n -> forall g, (g < cK c)%nat -> s' n g = s (piN n) g) ->
+      (r < cK c)%nat -> (a < R)%nat -> (l < L)%nat ->
+      temp_tendency_explicit Wc Wc toM divc clp c X' r (a, l)
+        = rot_modal fast rc rs (un (temp_tendency_explicit Wc Wc toM divc clp c X r)) a l /\
+      temp_tendency_explicit_moist Wc Wc toM divc clp c m X' q' r (a, l)
+        = rot_modal fast rc rs (un (temp_tendency_explicit_moist Wc Wc toM divc clp c m X q r)) a l /\
+      tracer_tendency_explicit Wc Wc toM divc clp c X' s' r (a, l)
+        = rot_modal fast rc rs (un (tracer_tendency_explicit Wc Wc toM divc clp c X s r)) a l /\
+      toM (fun n => log_pressure_tendency c (X' n)) (a, l)
+        = rot_modal fast rc rs (un (toM (fun n => log_pressure_tendency c (X n)))) a l /\
+      div_tendency_explicit Wc Wc toM divc lap clp c grav X' rt' (Rm orog) (Rm hum) r (a, l)
+        = rot_modal fast rc rs (un (div_tendency_explicit Wc Wc toM divc lap clp c grav X rt orog hum r)) a l /\
+      vort_tendency_explicit Wc Wc toM curlc clp c X' rt' (Rm humz) r (a, l)
+        = rot_modal fast rc rs (un (vort_tendency_explicit Wc Wc toM curlc clp c X rt humz r)) a l.
+    Proof. intros X X'; intros; eapply primeq_rotated_state_tendency; eassumption. Qed.
+
+    Theorem C10_primeq_humidity_rot (m : Moist) (X : Wc -> NCol) (q gqx gqy : Wc -> nat -> F) (lapn : Wc -> F) r a l :
+      (a < R)%nat -> (l < L)%nat ->
+      humidity_div_modal Wc Wc toM lap c m (rotX Wc piN X) (fun n => q (piN n)) (fun n => gqx (piN n))
+                         (fun n => gqy (piN n)) (fun n => lapn (piN n)) r (a, l)
+        = rot_modal fast rc rs (un (humidity_div_modal Wc Wc toM lap c m X q gqx gqy lapn r)) a l /\
+      humidity_curl_modal Wc Wc toM c m (rotX Wc piN X) (fun n => gqx (piN n)) (fun n => gqy (piN n)) r (a, l)
+        = rot_modal fast rc rs (un (humidity_curl_modal Wc Wc toM c m X gqx gqy r)) a l.
+    Proof. intros; eapply primeq_humidity_rot_concrete; eassumption. Qed.
+  End ConcreteRot.
+
+  (** (e) implicit terms and implicit inverse (default method): applied coefficient by coefficient to the vertical
+      column (divergence, temperature, lnps) with a dependence on the total wavenumber only ([lam l] = laplacian
+      eigenvalue; [inv] = any matrix inversion routine).  Vorticity and tracers have zero implicit terms and the
+      identity as inverse. *)
+  Theorem C10_implicit_terms_equivariant fast sp (lam : nat -> F) (rc rs : nat -> F) pz (dv tp : nat -> marr) (ps : marr) g i l :
+    (g < cK c)%nat ->
+    let Lop := fun l => implicit_terms sp c (lam l) in
+    (let dv' := fun g => rot_modal fast rc rs (dv g) in let tp' := fun g => rot_modal fast rc rs (tp g) in
+     let ps' := rot_modal fast rc rs ps in
+     op_div Lop dv' tp' ps' g i l = rot_modal fast rc rs (op_div Lop dv tp ps g) i l /\
+     op_temp Lop dv' tp' ps' g i l = rot_modal fast rc rs (op_temp Lop dv tp ps g) i l /\
+     op_lnps Lop dv' tp' ps' i l = rot_modal fast rc rs (op_lnps Lop dv tp ps) i l) /\
+    (let dv' := fun g => mir_modal fast pz (dv g) in let tp' := fun g => mir_modal fast pz (tp g) in
+     let ps' := mir_modal fast pz ps in
+     op_div Lop dv' tp' ps' g i l = mir_modal fast pz (op_div Lop dv tp ps g) i l /\
+     op_temp Lop dv' tp' ps' g i l = mir_modal fast pz (op_temp Lop dv tp ps g) i l /\
+     op_lnps Lop dv' tp' ps' i l = mir_modal fast pz (op_lnps Lop dv tp ps) i l).
+  Proof. exact (implicit_terms_equivariant c fast sp lam rc rs pz dv tp ps g i l). Qed.
+
+  Theorem C10_implicit_inverse_equivariant fast inv eta (lam : nat -> F) (rc rs : nat -> F) pz (dv tp : nat -> marr) (ps : marr) g i l :
+    (g < cK c)%nat ->
+    let Lop := fun l => inverse_split inv c eta (lam l) in
+    (let dv' := fun g => rot_modal fast rc rs (dv g) in let tp' := fun g => rot_modal fast rc rs (tp g) in
+     let ps' := rot_modal fast rc rs ps in
+     op_div Lop dv' tp' ps' g i l = rot_modal fast rc rs (op_div Lop dv tp ps g) i l /\
+     op_temp Lop dv' tp' ps' g i l = rot_modal fast rc rs (op_temp Lop dv tp ps g) i l /\
+     op_lnps Lop dv' tp' ps' i l = rot_modal fast rc rs (op_lnps Lop dv tp ps) i l) /\
+    (let dv' := fun g => mir_modal fast pz (dv g) in let tp' := fun g => mir_modal fast pz (tp g) in
+     let ps' := mir_modal fast pz ps in
+     op_div Lop dv' tp' ps' g i l = mir_modal fast pz (op_div Lop dv tp ps g) i l /\
+     op_temp Lop dv' tp' ps' g i l = mir_modal fast pz (op_temp Lop dv tp ps g) i l /\
+     op_lnps Lop dv' tp' ps' i l = mir_modal fast pz (op_lnps Lop dv tp ps) i l).
+  Proof. exact (implicit_inverse_equivariant c fast inv eta lam rc rs pz dv tp ps g i l). Qed.
 End C10_primeq.
 
 (** Non-vacuity over Qc: (i) the table hypotheses hold for the quarter-turn rotation on a 4 x 2 grid
@@ -364,6 +489,8 @@ Example C10_example :
   (* latitude tables of the primitive-equation theorems: sec2_lat even, Coriolis odd (nodes sin(lat) = -1/2, 1/2) *)
   (forall j, (j < 2)%nat -> (fun _ : nat => Q2Qc (4 # 3)) j = (fun _ : nat => Q2Qc (4 # 3)) (2 - 1 - j)%nat) /\
   (forall j, (j < 2)%nat -> ex_q [-1 # 2; 1 # 2]%Q j = - ex_q [-1 # 2; 1 # 2]%Q (2 - 1 - j)%nat) /\
+  (* recurrence weights that depend on the wavenumber of the row only (rotation theorems) *)
+  sym_rows false 3 (fun i l => ex_q [0; 1 # 3; 1 # 3]%Q i) /\
   sym_hyps (vo := FSp) (fun x : Qc => x * x * x) (fun x => (1 + 1) * x) (fun eta x => eta * x) (fun x => - x) eq.
 Proof.
   split; [reflexivity|].
@@ -377,6 +504,7 @@ Proof.
            intros j. destruct j as [|[|j]]; apply Qc_is_canon; vm_compute; reflexivity. }
   split. { intros j Hj. reflexivity. }
   split. { intros j Hj. destruct j as [|[|j]]; try lia; apply Qc_is_canon; vm_compute; reflexivity. }
+  split. { intros i l Hi E. destruct i as [|[|[|i]]]; try lia; reflexivity. }
   unfold sym_hyps. cbn [vz va vs FSp].
   repeat split; intros; subst; try reflexivity; try congruence; cbn; ring.
 Qed.
@@ -410,4 +538,11 @@ Print Assumptions C10_primeq_columns_of_mirrored_state.
 Print Assumptions C10_primeq_tendency_mirror_equivariant.
 Print Assumptions C10_primeq_mirrored_state_tendency.
 Print Assumptions C10_primeq_humidity_mirror.
+Print Assumptions C10_get_cos_lat_vector_rot.
+Print Assumptions C10_primeq_columns_of_rotated_state.
+Print Assumptions C10_primeq_tendency_rot_equivariant.
+Print Assumptions C10_primeq_rotated_state_tendency.
+Print Assumptions C10_primeq_humidity_rot.
+Print Assumptions C10_implicit_terms_equivariant.
+Print Assumptions C10_implicit_inverse_equivariant.
 Print Assumptions C10_example.
